@@ -95,7 +95,7 @@ type Func struct {
 	Source      string // the PL/pgSQL body
 	decls       []decl
 	body        []*stmt
-	calls       []string
+	calls       []string // every user function called in the body
 }
 
 var reserved = map[string]bool{}
@@ -108,6 +108,8 @@ func init() {
 	}
 }
 
+// parser works on a token array; a failure (malformed or unsupported text)
+// panics with a parseError, recovered by parseFunction.
 type parser struct {
 	src  string
 	toks []token
@@ -117,68 +119,66 @@ type parser struct {
 	// state of the top-level expression being parsed
 	static   *PgError
 	calls    []string
-	allCalls []string // every user function called in the body
+	allCalls []string
 }
 
-func (p *parser) peek() token { return p.toks[p.i] }
-func (p *parser) next() token {
-	t := p.toks[p.i]
-	if t.k != tEOF {
+type parseError struct{ error }
+
+// fail reports the problem together with the source text at token index at.
+func (p *parser) fail(at int, format string, args ...any) {
+	where := "end of text"
+	if t := p.toks[at]; t.k != tEOF {
+		where = excerpt(p.src[t.pos:])
+	}
+	panic(parseError{fmt.Errorf("vpg: %s, at %s", fmt.Sprintf(format, args...), where)})
+}
+
+func (p *parser) peek() token        { return p.toks[p.i] }
+func (p *parser) isKw(w string) bool { t := p.peek(); return t.k == tIdent && t.s == w }
+func (p *parser) isOp(o string) bool { t := p.peek(); return t.k == tOp && t.s == o }
+func (p *parser) acceptKw(ws ...string) bool {
+	for _, w := range ws {
+		if p.isKw(w) {
+			p.i++
+			return true
+		}
+	}
+	return false
+}
+
+func (p *parser) acceptOp(os ...string) bool {
+	for _, o := range os {
+		if p.isOp(o) {
+			p.i++
+			return true
+		}
+	}
+	return false
+}
+
+func (p *parser) expectKw(words ...string) {
+	for _, w := range words {
+		if !p.acceptKw(w) {
+			p.fail(p.i, "expected %s", strings.ToUpper(w))
+		}
+	}
+}
+
+func (p *parser) expectOp(o string) {
+	if !p.acceptOp(o) {
+		p.fail(p.i, "expected %q", o)
+	}
+}
+
+func (p *parser) expectTok(k tokKind, what string) token {
+	t := p.peek()
+	if t.k != k || (k == tIdent && reserved[t.s]) {
+		p.fail(p.i, "expected %s", what)
+	}
+	if k != tEOF {
 		p.i++
 	}
 	return t
-}
-func (p *parser) isKw(w string) bool { t := p.peek(); return t.k == tIdent && t.s == w }
-func (p *parser) isOp(o string) bool { t := p.peek(); return t.k == tOp && t.s == o }
-func (p *parser) acceptKw(w string) bool {
-	if p.isKw(w) {
-		p.i++
-		return true
-	}
-	return false
-}
-func (p *parser) acceptOp(o string) bool {
-	if p.isOp(o) {
-		p.i++
-		return true
-	}
-	return false
-}
-
-// errf reports a parse failure (unsupported or malformed text) with the
-// offending source text.
-func (p *parser) errf(format string, args ...any) error {
-	t := p.peek()
-	at := "end of text"
-	if t.k != tEOF {
-		at = excerpt(p.src[t.pos:])
-	}
-	return fmt.Errorf("vpg: %s, at %s", fmt.Sprintf(format, args...), at)
-}
-
-func (p *parser) expectKw(words ...string) error {
-	for _, w := range words {
-		if !p.acceptKw(w) {
-			return p.errf("expected %s", strings.ToUpper(w))
-		}
-	}
-	return nil
-}
-
-func (p *parser) expectOp(o string) error {
-	if !p.acceptOp(o) {
-		return p.errf("expected %q", o)
-	}
-	return nil
-}
-
-func (p *parser) ident(what string) (string, error) {
-	t := p.peek()
-	if t.k != tIdent || reserved[t.s] {
-		return "", p.errf("expected %s", what)
-	}
-	p.i++
-	return t.s, nil
 }
 
 func (p *parser) setStatic(state, format string, args ...any) {
@@ -190,418 +190,270 @@ func (p *parser) setStatic(state, format string, args ...any) {
 // ---------------------------------------------------------------- functions
 
 // parseFunction parses one CREATE FUNCTION statement (without its final ';').
-func parseFunction(text string) (*Func, error) {
-	toks, err := lex(text)
-	if err != nil {
-		return nil, fmt.Errorf("vpg: %v", err)
-	}
-	p := &parser{src: text, toks: toks}
-	if err := p.expectKw("create"); err != nil {
-		return nil, err
-	}
-	if p.acceptKw("or") {
-		if err := p.expectKw("replace"); err != nil {
-			return nil, err
+func parseFunction(text string) (f *Func, err error) {
+	defer func() {
+		if r := recover(); r != nil {
+			pe, ok := r.(parseError)
+			if !ok {
+				panic(r)
+			}
+			if f.Name != "" {
+				pe.error = fmt.Errorf("function %s: %w", f.Name, pe.error)
+			}
+			f, err = nil, pe.error
 		}
+	}()
+	f = &Func{}
+	p := newParser(text)
+	p.expectKw("create")
+	if p.acceptKw("or") {
+		p.expectKw("replace")
 	}
-	if err := p.expectKw("function"); err != nil {
-		return nil, err
+	p.expectKw("function")
+	f.Name = p.expectTok(tIdent, "function name").s
+	p.expectOp("(")
+	f.Param = p.expectTok(tIdent, "parameter name").s
+	p.expectKw("jsonb")
+	p.expectOp(")")
+	p.expectKw("returns")
+	if !p.acceptKw("boolean", "bool") {
+		p.fail(p.i, "expected return type boolean")
 	}
-	f := &Func{}
-	if f.Name, err = p.ident("function name"); err != nil {
-		return nil, err
-	}
-	if err := p.expectOp("("); err != nil {
-		return nil, err
-	}
-	if f.Param, err = p.ident("parameter name"); err != nil {
-		return nil, err
-	}
-	if err := p.expectKw("jsonb"); err != nil {
-		return nil, err
-	}
-	if err := p.expectOp(")"); err != nil {
-		return nil, err
-	}
-	if err := p.expectKw("returns"); err != nil {
-		return nil, err
-	}
-	if !p.acceptKw("boolean") && !p.acceptKw("bool") {
-		return nil, p.errf("expected return type boolean")
-	}
-	if err := p.expectKw("as"); err != nil {
-		return nil, err
-	}
-	body := p.next()
-	if body.k != tDollar {
-		p.i--
-		return nil, p.errf("expected $$ body $$")
-	}
-	if err := p.expectKw("language"); err != nil {
-		return nil, err
-	}
-	if lang := p.next(); (lang.k != tString && lang.k != tIdent) || strings.ToLower(lang.s) != "plpgsql" {
-		p.i--
-		return nil, p.errf("expected language plpgsql")
+	p.expectKw("as")
+	f.Source = p.expectTok(tDollar, "$$ body $$").s
+	p.expectKw("language")
+	if !p.acceptKw("plpgsql") && strings.ToLower(p.expectTok(tString, "language plpgsql").s) != "plpgsql" {
+		p.fail(p.i-1, "expected language plpgsql")
 	}
 	p.acceptKw("immutable")
-	if p.peek().k != tEOF {
-		return nil, p.errf("unsupported function attribute")
-	}
-	f.Source = body.s
-	if err := parseBody(f); err != nil {
-		return nil, fmt.Errorf("function %s: %w", f.Name, err)
-	}
+	p.expectTok(tEOF, "end of statement (unsupported function attribute)")
+	parseBody(f)
 	return f, nil
 }
 
-func parseBody(f *Func) error {
-	toks, err := lex(f.Source)
+func newParser(src string) *parser {
+	toks, err := lex(src)
 	if err != nil {
-		return fmt.Errorf("vpg: %v", err)
+		panic(parseError{fmt.Errorf("vpg: %v", err)})
 	}
-	p := &parser{src: f.Source, toks: toks, vars: map[string]typ{f.Param: tyJSONB}}
+	return &parser{src: src, toks: toks}
+}
+
+func parseBody(f *Func) {
+	p := newParser(f.Source)
+	p.vars = map[string]typ{f.Param: tyJSONB}
 	if p.acceptKw("declare") {
 		for !p.isKw("begin") {
-			name, err := p.ident("variable name")
-			if err != nil {
-				return err
+			d := decl{name: p.expectTok(tIdent, "variable name").s}
+			if _, dup := p.vars[d.name]; dup {
+				p.fail(p.i-1, "variable %s redeclared (shadowing is not modelled)", d.name)
 			}
-			if _, dup := p.vars[name]; dup {
-				return p.errf("variable %s redeclared (shadowing is not modelled)", name)
+			if !p.acceptKw("boolean", "bool") {
+				p.fail(p.i, "unsupported variable type (only boolean)")
 			}
-			if !p.acceptKw("boolean") && !p.acceptKw("bool") {
-				return p.errf("unsupported variable type (only boolean)")
-			}
-			d := decl{name: name}
 			if p.acceptOp(":=") || p.acceptKw("default") {
-				if d.init, err = p.parseBoolTop("initial value of " + name); err != nil {
-					return err
-				}
+				d.init = p.parseBoolTop("initial value of " + d.name)
 			}
-			if err := p.expectOp(";"); err != nil {
-				return err
-			}
-			p.vars[name] = tyBool // visible to the following declarations only
+			p.expectOp(";")
+			p.vars[d.name] = tyBool // visible to the following declarations only
 			f.decls = append(f.decls, d)
 		}
 	}
-	if err := p.expectKw("begin"); err != nil {
-		return err
-	}
-	if f.body, err = p.parseStmts(); err != nil {
-		return err
-	}
-	if err := p.expectKw("end"); err != nil {
-		return err
-	}
+	p.expectKw("begin")
+	f.body = p.parseStmts()
+	p.expectKw("end")
 	p.acceptOp(";")
-	if p.peek().k != tEOF {
-		return p.errf("unexpected text after END")
-	}
+	p.expectTok(tEOF, "end of body")
 	f.calls = p.allCalls
-	return nil
 }
 
 // --------------------------------------------------------------- statements
 
-func (p *parser) parseStmts() ([]*stmt, error) {
-	var out []*stmt
-	for {
-		t := p.peek()
-		if t.k == tIdent && (t.s == "end" || t.s == "else" || t.s == "when") {
-			return out, nil
-		}
-		s, err := p.parseStmt()
-		if err != nil {
-			return nil, err
-		}
-		out = append(out, s)
+func (p *parser) parseStmts() (out []*stmt) {
+	for !p.isKw("end") && !p.isKw("else") && !p.isKw("when") {
+		out = append(out, p.parseStmt())
 	}
+	return out
 }
 
-func (p *parser) parseStmt() (*stmt, error) {
-	var err error
+func (p *parser) parseStmt() *stmt {
+	s := &stmt{}
+	t := p.peek()
 	switch {
 	case p.acceptKw("if"):
-		s := &stmt{k: sIf, conds: make([]*topExpr, 1), blocks: make([][]*stmt, 1)}
-		if s.conds[0], err = p.parseBoolTop("IF condition"); err != nil {
-			return nil, err
-		}
-		if err = p.expectKw("then"); err != nil {
-			return nil, err
-		}
-		if s.blocks[0], err = p.parseStmts(); err != nil {
-			return nil, err
-		}
-		if p.acceptKw("else") {
-			s.hasElse = true
-			if s.els, err = p.parseStmts(); err != nil {
-				return nil, err
-			}
-		}
-		if err = p.expectKw("end", "if"); err != nil {
-			return nil, err
-		}
-		return s, p.expectOp(";")
+		s.k = sIf
+		s.conds = []*topExpr{p.parseBoolTop("IF condition")}
+		p.expectKw("then")
+		s.blocks = [][]*stmt{p.parseStmts()}
+		p.parseElse(s, "if")
 	case p.acceptKw("case"):
-		s := &stmt{k: sCase}
+		s.k = sCase
 		if !p.isKw("when") {
-			return nil, p.errf("only the searched form CASE WHEN cond THEN ... is supported")
+			p.fail(p.i, "only the searched form CASE WHEN cond THEN ... is supported")
 		}
 		for p.acceptKw("when") {
-			c, err := p.parseBoolTop("WHEN condition")
-			if err != nil {
-				return nil, err
-			}
-			if err = p.expectKw("then"); err != nil {
-				return nil, err
-			}
-			b, err := p.parseStmts()
-			if err != nil {
-				return nil, err
-			}
-			s.conds, s.blocks = append(s.conds, c), append(s.blocks, b)
+			s.conds = append(s.conds, p.parseBoolTop("WHEN condition"))
+			p.expectKw("then")
+			s.blocks = append(s.blocks, p.parseStmts())
 		}
-		if p.acceptKw("else") {
-			s.hasElse = true
-			if s.els, err = p.parseStmts(); err != nil {
-				return nil, err
-			}
-		}
-		if err = p.expectKw("end", "case"); err != nil {
-			return nil, err
-		}
-		return s, p.expectOp(";")
+		p.parseElse(s, "case")
 	case p.acceptKw("return"):
-		s := &stmt{k: sReturn}
-		if s.e, err = p.parseBoolTop("RETURN value"); err != nil {
-			return nil, err
-		}
-		return s, p.expectOp(";")
+		s.k, s.e = sReturn, p.parseBoolTop("RETURN value")
 	case p.acceptKw("raise"):
-		if err = p.expectKw("warning"); err != nil {
-			return nil, err
-		}
-		format := p.next()
-		if format.k != tString {
-			p.i--
-			return nil, p.errf("expected RAISE format string")
-		}
-		s := &stmt{k: sRaise}
+		s.k = sRaise
+		p.expectKw("warning")
+		format := p.expectTok(tString, "RAISE format string")
 		for p.acceptOp(",") {
-			a, err := p.parseTop()
-			if err != nil {
-				return nil, err
-			}
-			s.conds = append(s.conds, a)
+			s.conds = append(s.conds, p.parseTop())
 		}
 		if want := strings.Count(strings.ReplaceAll(format.s, "%%", ""), "%"); want != len(s.conds) {
-			return nil, p.errf("RAISE format %q has %d placeholders for %d parameters", format.s, want, len(s.conds))
+			p.fail(p.i, "RAISE format %q has %d placeholders for %d parameters", format.s, want, len(s.conds))
 		}
-		return s, p.expectOp(";")
-	}
-	if t := p.peek(); t.k == tIdent && !reserved[t.s] && p.toks[p.i+1].k == tOp && p.toks[p.i+1].s == ":=" {
-		if ty, ok := p.vars[t.s]; !ok || ty != tyBool {
-			return nil, p.errf("assignment to %s, which is not a declared boolean variable", t.s)
+	case t.k == tIdent && !reserved[t.s] && p.toks[p.i+1].k == tOp && p.toks[p.i+1].s == ":=":
+		if p.vars[t.s] != tyBool {
+			p.fail(p.i, "assignment to %s, which is not a declared boolean variable", t.s)
 		}
 		p.i += 2
-		s := &stmt{k: sAssign, name: t.s}
-		if s.e, err = p.parseBoolTop("value assigned to " + t.s); err != nil {
-			return nil, err
-		}
-		return s, p.expectOp(";")
+		s.k, s.name, s.e = sAssign, t.s, p.parseBoolTop("value assigned to "+t.s)
+	default:
+		p.fail(p.i, "unsupported statement")
 	}
-	return nil, p.errf("unsupported statement")
+	p.expectOp(";")
+	return s
+}
+
+func (p *parser) parseElse(s *stmt, closing string) {
+	if p.acceptKw("else") {
+		s.hasElse, s.els = true, p.parseStmts()
+	}
+	p.expectKw("end", closing)
 }
 
 // parseTop parses one top-level SQL expression.
-func (p *parser) parseTop() (*topExpr, error) {
+func (p *parser) parseTop() *topExpr {
 	p.static, p.calls = nil, nil
 	start := p.peek().pos
-	e, err := p.parseExpr()
-	if err != nil {
-		return nil, err
-	}
-	t := &topExpr{e: e, src: strings.TrimSpace(p.src[start:p.peek().pos]), static: p.static, calls: p.calls}
+	e := p.parseExpr()
 	p.allCalls = append(p.allCalls, p.calls...)
-	return t, nil
+	return &topExpr{e: e, src: strings.TrimSpace(p.src[start:p.peek().pos]), static: p.static, calls: p.calls}
 }
 
 // parseBoolTop parses an expression used where PL/pgSQL wants a boolean. Other
 // types would go through a run-time assignment cast, which is not modelled.
-func (p *parser) parseBoolTop(what string) (*topExpr, error) {
+func (p *parser) parseBoolTop(what string) *topExpr {
 	at := p.i
-	t, err := p.parseTop()
-	if err != nil {
-		return nil, err
-	}
+	t := p.parseTop()
 	if t.e.isNullLit() {
 		t.e.t = tyBool
 	}
 	if t.e.t != tyBool && t.static == nil {
-		p.i = at
-		return nil, p.errf("%s has type %s; only boolean expressions are supported there", what, t.e.t)
+		p.fail(at, "%s has type %s; only boolean expressions are supported there", what, t.e.t)
 	}
-	return t, nil
+	return t
 }
 
 // -------------------------------------------------------------- expressions
 // Precedence, lowest first (PostgreSQL manual, 4.1.6): OR; AND; NOT; = <> (non
 // associative); IN; other operators (-> ->> #>>); unary minus; :: .
 
-func (p *parser) parseExpr() (*expr, error) {
-	l, err := p.parseAnd()
-	for err == nil && p.acceptKw("or") {
-		var r *expr
-		if r, err = p.parseAnd(); err == nil {
-			l, err = p.mkLogic(eOr, "OR", l, r)
-		}
+func (p *parser) parseExpr() *expr {
+	l := p.parseAnd()
+	for p.acceptKw("or") {
+		l = p.mkLogic(eOr, "OR", l, p.parseAnd())
 	}
-	return l, err
+	return l
 }
 
-func (p *parser) parseAnd() (*expr, error) {
-	l, err := p.parseNot()
-	for err == nil && p.acceptKw("and") {
-		var r *expr
-		if r, err = p.parseNot(); err == nil {
-			l, err = p.mkLogic(eAnd, "AND", l, r)
-		}
+func (p *parser) parseAnd() *expr {
+	l := p.parseNot()
+	for p.acceptKw("and") {
+		l = p.mkLogic(eAnd, "AND", l, p.parseNot())
 	}
-	return l, err
+	return l
 }
 
-func (p *parser) parseNot() (*expr, error) {
+func (p *parser) parseNot() *expr {
 	if p.acceptKw("not") {
-		x, err := p.parseNot()
-		if err != nil {
-			return nil, err
-		}
-		return p.mkLogic(eNot, "NOT", x)
+		return p.mkLogic(eNot, "NOT", p.parseNot())
 	}
-	return p.parseCmp()
-}
-
-func (p *parser) cmpOp() (ekind, bool) {
+	l := p.parseIn()
+	k := eEq
 	switch {
 	case p.acceptOp("="):
-		return eEq, true
-	case p.acceptOp("!="), p.acceptOp("<>"):
-		return eNe, true
+	case p.acceptOp("!=", "<>"):
+		k = eNe
+	default:
+		return l
 	}
-	return 0, false
+	args := []*expr{l, p.parseIn()}
+	if p.isOp("=") || p.isOp("!=") || p.isOp("<>") {
+		p.fail(p.i, "comparison operators are not associative")
+	}
+	p.unify(args)
+	return &expr{k: k, t: tyBool, args: args}
 }
 
-func (p *parser) parseCmp() (*expr, error) {
-	l, err := p.parseIn()
-	if err != nil {
-		return nil, err
+func (p *parser) parseIn() *expr {
+	l := p.parseOther()
+	if p.isKw("is") || p.isKw("not") || p.isKw("between") || p.isKw("like") {
+		p.fail(p.i, "unsupported predicate")
 	}
-	k, ok := p.cmpOp()
-	if !ok {
-		return l, nil
+	if !p.acceptKw("in") {
+		return l
 	}
-	r, err := p.parseIn()
-	if err != nil {
-		return nil, err
-	}
-	if t := p.peek(); t.k == tOp && (t.s == "=" || t.s == "!=" || t.s == "<>") {
-		return nil, p.errf("comparison operators are not associative")
-	}
-	if err := p.unify([]*expr{l, r}); err != nil {
-		return nil, err
-	}
-	return &expr{k: k, t: tyBool, args: []*expr{l, r}}, nil
-}
-
-func (p *parser) parseIn() (*expr, error) {
-	l, err := p.parseOther()
-	if err != nil || !p.isKw("in") {
-		if err == nil && (p.isKw("is") || p.isKw("not") || p.isKw("between") || p.isKw("like")) {
-			return nil, p.errf("unsupported predicate")
-		}
-		return l, err
-	}
-	p.i++
-	if err := p.expectOp("("); err != nil {
-		return nil, err
-	}
+	p.expectOp("(")
 	if p.isKw("select") {
-		return nil, p.errf("IN (sub-select) is not supported")
+		p.fail(p.i, "IN (sub-select) is not supported")
 	}
-	args := []*expr{l}
-	for {
-		e, err := p.parseExpr()
-		if err != nil {
-			return nil, err
-		}
-		args = append(args, e)
-		if !p.acceptOp(",") {
-			break
-		}
+	args := []*expr{l, p.parseExpr()}
+	for p.acceptOp(",") {
+		args = append(args, p.parseExpr())
 	}
-	if err := p.expectOp(")"); err != nil {
-		return nil, err
-	}
+	p.expectOp(")")
 	if p.isKw("in") {
-		return nil, p.errf("IN is not associative")
+		p.fail(p.i, "IN is not associative")
 	}
-	if err := p.unify(args); err != nil {
-		return nil, err
-	}
-	return &expr{k: eIn, t: tyBool, args: args}, nil
+	p.unify(args)
+	return &expr{k: eIn, t: tyBool, args: args}
 }
 
-func (p *parser) parseOther() (*expr, error) {
-	l, err := p.parseUnary()
-	for err == nil {
-		t := p.peek()
-		if t.k != tOp || (t.s != "->" && t.s != "->>" && t.s != "#>>") {
-			break
-		}
+func (p *parser) parseOther() *expr {
+	l := p.parseUnary()
+	for p.isOp("->") || p.isOp("->>") || p.isOp("#>>") {
+		op := p.peek().s
 		p.i++
 		at := p.i
-		var r *expr
-		if r, err = p.parseUnary(); err != nil {
-			break
-		}
+		r := p.parseUnary()
 		if r.k != eLit || r.t != tyUnknown || r.val.k != vText {
-			p.i = at
-			return nil, p.errf("the right operand of %s must be a quoted literal", t.s)
+			p.fail(at, "the right operand of %s must be a quoted literal", op)
 		}
-		if err = p.requireJSONB(l, "operator "+t.s); err != nil {
-			break
-		}
-		switch t.s {
+		p.requireJSONB(l, at-1, "operator "+op)
+		switch op {
 		case "->":
 			l = &expr{k: eArrow, t: tyJSONB, name: r.val.s, args: []*expr{l}}
 		case "->>":
 			l = &expr{k: eArrowText, t: tyText, name: r.val.s, args: []*expr{l}}
 		default:
 			if r.val.s != "{}" {
-				p.i = at
-				return nil, p.errf("only the empty path '{}' is supported with #>>")
+				p.fail(at, "only the empty path '{}' is supported with #>>")
 			}
 			l = &expr{k: ePathText, t: tyText, args: []*expr{l}}
 		}
 	}
-	return l, err
+	return l
 }
 
-func (p *parser) parseUnary() (*expr, error) {
+func (p *parser) parseUnary() *expr {
 	if p.acceptOp("-") {
-		t := p.peek()
-		if t.k != tNum {
-			return nil, p.errf("unary minus is only supported on integer literals")
+		if p.peek().k != tNum {
+			p.fail(p.i, "unary minus is only supported on integer literals")
 		}
-		p.i++
-		return p.intLit("-"+t.s, t)
+		return p.intLit("-")
 	}
-	x, err := p.parsePrimary()
-	for err == nil && p.acceptOp("::") {
-		if !p.acceptKw("int") && !p.acceptKw("integer") && !p.acceptKw("int4") {
-			return nil, p.errf("unsupported cast target (only ::int)")
+	x := p.parsePrimary()
+	for p.acceptOp("::") {
+		if !p.acceptKw("int", "integer", "int4") {
+			p.fail(p.i, "unsupported cast target (only ::int)")
 		}
 		switch {
 		case x.isNullLit():
@@ -609,121 +461,104 @@ func (p *parser) parseUnary() (*expr, error) {
 		case x.t == tyJSONB || p.static != nil:
 			x = &expr{k: eCastInt, t: tyInt, args: []*expr{x}}
 		default:
-			p.i -= 2
-			return nil, p.errf("cast of a %s value to integer is not supported (only jsonb)", x.t)
+			p.fail(p.i-2, "cast of a %s value to integer is not supported (only jsonb)", x.t)
 		}
 	}
-	return x, err
+	return x
 }
 
-func (p *parser) intLit(s string, t token) (*expr, error) {
-	n, err := strconv.ParseInt(s, 10, 64)
+func (p *parser) intLit(sign string) *expr {
+	n, err := strconv.ParseInt(sign+p.peek().s, 10, 64)
 	if err != nil {
-		p.i--
-		return nil, p.errf("integer literal %s does not fit 64 bits (numeric literals are not supported)", s)
+		p.fail(p.i, "integer literal does not fit 64 bits (numeric literals are not supported)")
 	}
-	return &expr{k: eLit, t: tyInt, val: value{k: vInt, i: n}}, nil
+	p.i++
+	return &expr{k: eLit, t: tyInt, val: value{k: vInt, i: n}}
 }
 
-func (p *parser) parsePrimary() (*expr, error) {
-	t := p.next()
+func (p *parser) parsePrimary() *expr {
+	t := p.peek()
 	switch {
-	case t.k == tString:
-		return &expr{k: eLit, t: tyUnknown, val: value{k: vText, s: t.s}}, nil
 	case t.k == tNum:
-		return p.intLit(t.s, t)
-	case t.k == tOp && t.s == "(":
+		return p.intLit("")
+	case t.k == tString:
+		p.i++
+		return &expr{k: eLit, t: tyUnknown, val: value{k: vText, s: t.s}}
+	case p.acceptOp("("):
 		if p.isKw("select") {
 			return p.parseSub()
 		}
-		e, err := p.parseExpr()
-		if err != nil {
-			return nil, err
-		}
-		return e, p.expectOp(")")
-	case t.k == tIdent && t.s == "true":
-		return &expr{k: eLit, t: tyBool, val: value{k: vBool, b: true}}, nil
-	case t.k == tIdent && t.s == "false":
-		return &expr{k: eLit, t: tyBool, val: value{k: vBool}}, nil
-	case t.k == tIdent && t.s == "null":
-		return &expr{k: eLit, t: tyUnknown}, nil
+		e := p.parseExpr()
+		p.expectOp(")")
+		return e
+	case p.acceptKw("true", "false"):
+		return &expr{k: eLit, t: tyBool, val: value{k: vBool, b: t.s == "true"}}
+	case p.acceptKw("null"):
+		return &expr{k: eLit, t: tyUnknown}
 	case t.k == tIdent && !reserved[t.s]:
+		p.i++
 		if p.acceptOp("(") {
 			return p.parseCall(t.s)
 		}
-		return p.resolve(t.s), nil
+		return p.resolve(t.s)
 	}
-	if t.k != tEOF {
-		p.i--
-	}
-	return nil, p.errf("expected an expression")
+	p.fail(p.i, "expected an expression")
+	return nil
 }
 
-func (p *parser) parseCall(name string) (*expr, error) {
+func (p *parser) parseCall(name string) *expr {
 	at := p.i - 2
 	switch name {
 	case "bool_and", "jsonb_each", "jsonb_array_elements":
-		p.i = at
-		return nil, p.errf("%s is only supported in (SELECT bool_and(expr) FROM jsonb_each|jsonb_array_elements(expr))", name)
+		p.fail(at, "%s is only supported in (SELECT bool_and(expr) FROM jsonb_each|jsonb_array_elements(expr))", name)
 	}
-	arg, err := p.parseExpr()
-	if err != nil {
-		return nil, err
+	arg := p.parseExpr()
+	if !p.acceptOp(")") {
+		p.fail(p.i, "function calls must have exactly one argument")
 	}
-	if !p.isOp(")") {
-		return nil, p.errf("function calls must have exactly one argument")
-	}
-	p.i++
-	if err := p.requireJSONB(arg, "function "+name); err != nil {
-		return nil, err
-	}
+	p.requireJSONB(arg, at, "function "+name)
 	switch name {
 	case "jsonb_typeof":
-		return &expr{k: eTypeof, t: tyText, args: []*expr{arg}}, nil
+		return &expr{k: eTypeof, t: tyText, args: []*expr{arg}}
 	case "jsonb_array_length":
-		return &expr{k: eArrLen, t: tyInt, args: []*expr{arg}}, nil
+		return &expr{k: eArrLen, t: tyInt, args: []*expr{arg}}
 	}
 	p.calls = append(p.calls, name)
-	return &expr{k: eCall, t: tyBool, name: name, args: []*expr{arg}}, nil
+	return &expr{k: eCall, t: tyBool, name: name, args: []*expr{arg}}
 }
 
 // parseSub parses `SELECT bool_and(arg) FROM srf(src))`; the opening
 // parenthesis is consumed. The FROM clause is read first because it decides
 // which columns (key, value) the aggregate argument sees.
-func (p *parser) parseSub() (*expr, error) {
+func (p *parser) parseSub() *expr {
 	const shape = "only (SELECT bool_and(expr) FROM jsonb_each(expr) | jsonb_array_elements(expr)) is supported"
 	p.i++ // select
 	if !p.acceptKw("bool_and") || !p.acceptOp("(") {
-		return nil, p.errf(shape)
+		p.fail(p.i, shape)
 	}
 	argStart := p.i
 	for depth := 1; depth > 0; p.i++ {
-		switch t := p.peek(); {
-		case t.k == tEOF:
-			return nil, p.errf("unbalanced parenthesis in bool_and(")
-		case t.k == tOp && t.s == "(":
+		switch {
+		case p.peek().k == tEOF:
+			p.fail(argStart, "unbalanced parenthesis after bool_and(")
+		case p.isOp("("):
 			depth++
-		case t.k == tOp && t.s == ")":
+		case p.isOp(")"):
 			depth--
 		}
 	}
 	argEnd := p.i - 1
 	if !p.acceptKw("from") {
-		return nil, p.errf(shape)
+		p.fail(p.i, shape)
 	}
 	srf := p.peek().s
-	if !p.acceptKw("jsonb_each") && !p.acceptKw("jsonb_array_elements") || !p.acceptOp("(") {
-		return nil, p.errf(shape)
+	if !p.acceptKw("jsonb_each", "jsonb_array_elements") || !p.acceptOp("(") {
+		p.fail(p.i, shape)
 	}
-	src, err := p.parseExpr()
-	if err != nil {
-		return nil, err
-	}
-	if err := p.requireJSONB(src, "function "+srf); err != nil {
-		return nil, err
-	}
+	src := p.parseExpr()
+	p.requireJSONB(src, p.i, "function "+srf)
 	if !p.acceptOp(")") || !p.acceptOp(")") {
-		return nil, p.errf(shape)
+		p.fail(p.i, shape)
 	}
 	after := p.i
 	cols := map[string]typ{"value": tyJSONB}
@@ -732,24 +567,22 @@ func (p *parser) parseSub() (*expr, error) {
 	}
 	p.cols = append(p.cols, cols)
 	p.i = argStart
-	arg, err := p.parseExpr()
+	arg := p.parseExpr()
 	p.cols = p.cols[:len(p.cols)-1]
-	if err != nil {
-		return nil, err
-	}
 	if p.i != argEnd {
-		return nil, p.errf("bool_and takes exactly one argument")
+		p.fail(p.i, "bool_and takes exactly one argument")
 	}
 	switch {
+	case arg.t == tyBool, p.static != nil:
 	case arg.isNullLit():
 		arg.t = tyBool
-	case arg.t == tyUnknown && p.static == nil:
-		return nil, p.errf("bool_and of an untyped string literal is not supported")
-	case arg.t != tyBool:
+	case arg.t == tyUnknown:
+		p.fail(argStart, "bool_and of an untyped string literal is not supported")
+	default:
 		p.setStatic("42883", "function bool_and(%s) does not exist", arg.t)
 	}
 	p.i = after
-	return &expr{k: eSub, t: tyBool, name: srf, args: []*expr{arg, src}}, nil
+	return &expr{k: eSub, t: tyBool, name: srf, args: []*expr{arg, src}}
 }
 
 // resolve binds an unqualified name. A name that is both a column of an
@@ -775,40 +608,39 @@ func (p *parser) resolve(name string) *expr {
 // Once a static (parse analysis) error is recorded for the current top-level
 // expression, its value can never be computed, so later checks are skipped.
 
-func (p *parser) requireJSONB(e *expr, what string) error {
+func (p *parser) requireJSONB(e *expr, at int, what string) {
 	switch {
 	case e.t == tyJSONB, p.static != nil:
 	case e.isNullLit():
 		e.t = tyJSONB
 	case e.t == tyUnknown:
-		return p.errf("%s applied to an untyped string literal is not supported", what)
+		p.fail(at, "%s applied to an untyped string literal is not supported", what)
 	default:
 		p.setStatic("42883", "%s does not exist for an argument of type %s", what, e.t)
 	}
-	return nil
 }
 
-func (p *parser) mkLogic(k ekind, name string, args ...*expr) (*expr, error) {
+func (p *parser) mkLogic(k ekind, name string, args ...*expr) *expr {
 	for _, a := range args {
 		switch {
 		case a.t == tyBool, p.static != nil:
 		case a.isNullLit():
 			a.t = tyBool
 		case a.t == tyUnknown:
-			return nil, p.errf("untyped string literal as argument of %s is not supported", name)
+			p.fail(p.i, "untyped string literal as argument of %s is not supported", name)
 		default:
 			p.setStatic("42804", "argument of %s must be type boolean, not type %s", name, a.t)
 		}
 	}
-	return &expr{k: k, t: tyBool, args: args}, nil
+	return &expr{k: k, t: tyBool, args: args}
 }
 
 // unify gives the operands of `=`, `<>` or IN (es[0] is the left operand) a
 // common type, as select_common_type does, and converts untyped literals to
 // it. Differing resolved types have no equality operator in this subset.
-func (p *parser) unify(es []*expr) error {
+func (p *parser) unify(es []*expr) {
 	if p.static != nil {
-		return nil
+		return
 	}
 	common := tyUnknown
 	for _, e := range es {
@@ -818,32 +650,29 @@ func (p *parser) unify(es []*expr) error {
 			common = e.t
 		default:
 			p.setStatic("42883", "operator does not exist: %s = %s", common, e.t)
-			return nil
+			return
 		}
 	}
 	switch common {
 	case tyUnknown:
 		common = tyText
 	case tyJSONB:
-		return p.errf("comparison of jsonb values is not supported")
+		p.fail(p.i-1, "comparison of jsonb values is not supported")
 	}
 	for _, e := range es {
-		if e.t != tyUnknown {
-			continue
-		}
 		switch {
+		case e.t != tyUnknown:
 		case e.isNullLit() || common == tyText:
 			e.t = common
 		case common == tyInt:
 			n, err := strconv.ParseInt(strings.Trim(e.val.s, " \t\n\r\f\v"), 10, 64)
 			if err != nil {
 				p.setStatic("22P02", "invalid input syntax for type integer: %q", e.val.s)
-				return nil
+				return
 			}
 			e.t, e.val = tyInt, value{k: vInt, i: n}
 		default:
-			return p.errf("conversion of the literal '%s' to %s is not supported", e.val.s, common)
+			p.fail(p.i-1, "conversion of the literal '%s' to %s is not supported", e.val.s, common)
 		}
 	}
-	return nil
 }
